@@ -16,7 +16,8 @@ RULE = (
     "Databases produced by real executions of generated programs under the harness executor: 1-3 "
     "executions per database drawn from the C01 grammar with errors, the C12 failing families "
     "(uncaught errors at depth, the same failing call reached again through CSE), duplicate calls, "
-    "cached re-executions, and executions aborted at a generated step (jobs left running). Oracle: "
+    "cached re-executions, and executions aborted at a generated step (jobs left running); optionally some "
+    "failed jobs are rewritten to the legacy shape (call node with an error result, no end_time). Oracle: "
     "for every status S in RUNNING/CACHED/FAILED/DONE the set of Job ids returned by "
     "CallGraphQuery.filter_job_statuses([S]) equals the set of Job rows whose displayed status "
     "(Job.status) is S, pairs of statuses give the union, and likewise for executions with "
@@ -45,7 +46,9 @@ def cases(draw):
         runs.append({"prog": prog, "abort": abort, "decisions": draw(st.lists(st.integers(0, 3), max_size=15))})
     if runs[0]["prog"] is None:
         runs[0]["prog"] = ["list", [["task", ["lit", ["int", 1]], {}, {}]]]
-    return {"runs": runs}
+    # records as redun wrote them before it set end_time for failed jobs (still found in long-lived or
+    # imported repositories): some finished jobs lose their end_time
+    return {"runs": runs, "legacy_no_end": draw(st.sampled_from([0, 0, 1, 2]))}
 
 
 def oracle(ctx: Ctx, case):
@@ -67,6 +70,16 @@ def oracle(ctx: Ctx, case):
                 pass
         session = backend.session
         session.expire_all()
+        if case.get("legacy_no_end"):
+            from sqlalchemy import text
+
+            done = [j.id for j in session.query(Job).order_by(Job.start_time, Job.task_hash).all()
+                    if j.end_time is not None and j.call_hash and j.status == "FAILED"]
+            for jid in done[:: max(1, 3 - case["legacy_no_end"])][:case["legacy_no_end"] * 2]:
+                session.execute(text("update job set end_time = null where id = :i"), {"i": jid})
+                kinds.add("legacy-failed-without-end")
+            session.commit()
+            session.expire_all()
         jobs = session.query(Job).all()
         by_status = {}
         for j in jobs:
